@@ -3,9 +3,10 @@
 # and runs the check against it. Writes /verif/seeded/<ID>/lead_verification.txt
 id="$1"; shift
 export GOFLAGS=-mod=mod GOPROXY=off
-dst=/verif/seeded/$id
+# SEED_ROUND=2 evaluates the second-round seed (/tmp/seed2-<ID>-out -> /verif/seeded/<ID>-r2)
+dst=/verif/seeded/$id${SEED_ROUND:+-r$SEED_ROUND}
 mkdir -p "$dst"
-[ -d /tmp/seed-$id-out ] && cp -r /tmp/seed-$id-out/. "$dst"/
+[ -d /tmp/seed$SEED_ROUND-$id-out ] && cp -r /tmp/seed$SEED_ROUND-$id-out/. "$dst"/
 wt=/tmp/seedeval-$id-$$
 git -C /repo worktree add -q --detach "$wt" HEAD || exit 2
 trap 'git -C /repo worktree remove --force "$wt"; git -C /repo worktree prune; rm -f /verif/.build/*.$(echo "$wt" | cksum | cut -d" " -f1)*' EXIT
